@@ -221,6 +221,8 @@ def _do_download(
     if session is None:
         session = requests
     response = session.get(full_link, stream=True)
+    # An error answer (e.g. a 503 page) is not the file: fail instead of saving it.
+    response.raise_for_status()
 
     with open(output_file, "wb") as handle:
         for block in response.iter_content(4 * 1024):
